@@ -247,7 +247,7 @@ void iauth_check_request(struct iauth_request *request)
     if (request->holds == 0
         && !BITSET_GET(request->flags, IAUTH_RESPONDED)
         && !BITSET_H_ANDNOT(iauth_flags, request->flags)) {
-        if (request->soft_holds == 0)
+        if (request->soft_holds == 0 || request->timed_out)
             iauth_accept(request);
         else if (!BITSET_GET(request->flags, IAUTH_SOFT_DONE)) {
             log_message(iauth_log, LOG_DEBUG, " -> client %d still has %d soft hold(s)",
@@ -442,6 +442,7 @@ static void iauth_timeout(evutil_socket_t sock, short event, void *datum)
 {
     struct iauth_request *req = datum;
     req->soft_holds = 0;
+    req->timed_out = 1;
     iauth_check_request(req);
     (void)sock; (void)event;
 }
